@@ -237,3 +237,85 @@ func validatorConfigRules(c *core.Ctx, r *core.Report, rule string) {
 	}
 	r.Floor(rule, "validator.New call sites", n, 1)
 }
+
+// propertyStoreRules: what the scanners record with Meta.SetProperties is what the later stages read back - every
+// property, once, whatever other properties (same tag, same field name in another embedded struct) were recorded.
+func propertyStoreRules(c *core.Ctx, r *core.Report, rule string) {
+	meta := c.Named("component_definition", "Meta")
+	if meta == nil {
+		r.Undecided(rule, "role:Meta", "", "component_definition.Meta not found")
+		return
+	}
+	set := c.DeclaredMethod(meta, "SetProperties")
+	all, comp, conf := c.DeclaredMethod(meta, "GetAllProperties"), c.DeclaredMethod(meta, "GetComponentProperties"), c.DeclaredMethod(meta, "GetConfigurationProperties")
+	if set == nil || all == nil || comp == nil || conf == nil {
+		r.Undecided(rule, "role:Meta.SetProperties", "", "Meta.SetProperties / GetAllProperties / GetComponentProperties / GetConfigurationProperties not found")
+		return
+	}
+	t := newTbl(c)
+	ip := absint.New(t)
+	ip.IsLog, ip.InScope = core.IsLogCall, c.InScope
+	m := absint.NewTok("meta", "meta")
+	m.Fields["propertyGroup"] = &absint.MapVal{M: map[string]absint.Value{}}
+	mk := func(id, ptype, tag, field string) *absint.Tok {
+		p := absint.NewTok(id, "property")
+		fld, sf := absint.NewTok(id+".Field", "field"), absint.NewTok(id+".Field.StructField", "structfield")
+		p.Fields["Field"], fld.Fields["StructField"] = fld, sf
+		sf.Fields["Name"] = absint.Str(field)
+		p.Fields["PropertyType"], p.Fields["Tag"] = absint.Str(ptype), absint.Str(tag)
+		p.Fields["TagStr"], p.Fields["TagVal"] = absint.Str(""), absint.Str("")
+		return p
+	}
+	p1, p2 := mk("p1", "Component", "wire", "Repo"), mk("p2", "Component", "wire", "Repo") // same name, two embedded structs
+	p3, p4 := mk("p3", "Configuration", "value", "Repo"), mk("p4", "Component", "wire", "Other")
+	p5 := mk("p5", "Configuration", "value", "Level")
+	cons := "property-store@" + core.FnName(set)
+	show := func(o absint.Outcome) []string {
+		var out []string
+		if len(o.Ret) == 1 {
+			if l, ok := o.Ret[0].(*absint.List); ok {
+				for _, e := range l.Elems {
+					out = append(out, absint.Show(e))
+				}
+			}
+		}
+		return out
+	}
+	step := func(fn *ssa.Function, args ...absint.Value) (absint.Outcome, bool) {
+		o := ip.Run(fn, args, nil)
+		if o.Undecided != nil {
+			r.Undecided(rule, cons, c.FnPos(set), "abstract interpretation left the model: "+o.Undecided.Msg)
+			return o, false
+		}
+		if o.Panic != nil {
+			r.Fail(rule, cons, c.FnPos(set), "panics: "+o.Panic.Msg)
+			return o, false
+		}
+		return o, true
+	}
+	if _, ok := step(set, m, &absint.List{Elems: []absint.Value{p1, p2, p3}}); !ok {
+		return
+	}
+	if _, ok := step(set, m, &absint.List{Elems: []absint.Value{p4, p5}}); !ok {
+		return
+	}
+	oc, ok1 := step(comp, m)
+	of, ok2 := step(conf, m)
+	oa, ok3 := step(all, m)
+	if !ok1 || !ok2 || !ok3 {
+		return
+	}
+	gotC, gotF, gotA := strings.Join(show(oc), " "), strings.Join(show(of), " "), show(oa)
+	multi := map[string]int{}
+	for _, x := range gotA {
+		multi[x]++
+	}
+	okAll := len(gotA) == 5
+	for _, x := range []string{"p1", "p2", "p3", "p4", "p5"} {
+		if multi[x] != 1 {
+			okAll = false
+		}
+	}
+	r.Check(gotC == "p1 p2 p4" && gotF == "p3 p5" && okAll, rule, cons, c.FnPos(set),
+		fmt.Sprintf("every recorded property is read back exactly once, component and configuration properties apart, in recording order within a kind (component=[%s] configuration=[%s] all=%v)", gotC, gotF, gotA))
+}
